@@ -346,6 +346,38 @@ func offenderSpans(flat *vlib.Doc, r vlib.Rendered, fault vlib.Fault) []vlib.Spa
 	return spans
 }
 
+// traceCase: a hand-written project whose diagnostic must carry exactly this
+// relative include trace (lines after the message).
+type traceCase struct {
+	Name  string            `json:"name"`
+	Files map[string]string `json:"files"`
+	Trace []string          `json:"trace"`
+}
+
+var c02Traces = []traceCase{
+	{Name: "F41-pending-directive-before-include", Files: map[string]string{
+		"root.jst": "JSIGHT 0.3\nGET /a\n  200 any\n    Title \"x\"\nINCLUDE inc.jst\n", "inc.jst": "TYPE @t\n{}\n"}, Trace: nil},
+	{Name: "fault-in-included-file", Files: map[string]string{
+		"root.jst": "JSIGHT 0.3\nINCLUDE inc.jst\n", "inc.jst": "TYPE @t\n{}\nTYPE @t\n{}\n"}, Trace: []string{"inc.jst:3", "root.jst:2"}},
+}
+
+func traceCheck(c traceCase, info *vlib.Info) *vlib.Failure {
+	info.NonTrivial = true
+	info.Class("regression-trace")
+	p := vlib.Project{Files: c.Files, Root: "root.jst"}
+	dir := vlib.Materialise(p)
+	defer removeAll(dir)
+	res := vlib.RunIn(p, dir)
+	if res.Err == nil {
+		return vlib.Failf("regression: "+c.Name, "%s: expected a diagnostic", c.Name)
+	}
+	got := strings.Split(vlib.RelTrace(res.Err.Full, dir), "\n")[strings.Count(res.Err.Msg, "\n")+1:]
+	if strings.Join(got, "|") != strings.Join(c.Trace, "|") {
+		return vlib.Failf("regression: "+c.Name, "%s: diagnostic %q carries the trace %q, expected %q", c.Name, res.Err.Msg, got, c.Trace)
+	}
+	return nil
+}
+
 func TestC02(t *testing.T) {
 	h := vlib.New(t, "C02", "fault_enumeration",
 		"every rejected case of: token sequences enumerated after canonical prefixes, token soups, mutated fixtures, fixtures in LF / CRLF / CR (file, index bounds, line and quote recomputed from the index alone), and valid generated documents x one injected fault of every C11 kind x newline convention x a cut into included files up to the tier's depth (same file set rendered with random styles): the diagnostic must lie in the file and span of an offending directive and Error() must be message + fault file:line + one includer:line per enclosing INCLUDE, innermost first; non-trivial = diagnostic not on line 1; distinct by project text",
@@ -354,6 +386,13 @@ func TestC02(t *testing.T) {
 	req := []string{"rejected", "nl:LF", "nl:CRLF", "nl:CR", "fault-at-include-depth:0", "fault-at-include-depth:1", "fault-at-include-depth:2", "trace-checked"}
 	h.Require(req...)
 
+	vlib.Enum(h, "regression-traces", false, func(yield func(traceCase) bool) {
+		for i, c := range c02Traces {
+			if h.Mine(i) && !yield(c) {
+				return
+			}
+		}
+	}, traceCheck)
 	vlib.Enum(h, "fixtures-3-newline-conventions", false, func(yield func(string) bool) {
 		i := 0
 		for _, c := range vlib.Corpus() {
